@@ -30,3 +30,19 @@ Theorem C10_nofire_identity : forall (data : Type) (sem : nat -> data -> data) t
   run data sem t force d ds = Some (d', [], ds') -> d' = d.
 Proof. intros data sem t. exact (nofire_identity data sem t). Qed.
 Print Assumptions C10_nofire_identity.
+
+(* the processor hands its configured format, validity flag and angle unit to both directions *)
+From DV.gen Require Import Gen_keypoints_proc Gen_bbox_proc.
+Theorem C10_keypoint_processor_wiring : forall deg fmt rem data r c s,
+  KeypointsProcessor_convert_to_dicaugment deg fmt rem data r c s =
+    convert_keypoints_to_dicaugment data fmt r c s rem deg /\
+  KeypointsProcessor_convert_from_dicaugment deg fmt rem data r c s =
+    convert_keypoints_from_dicaugment data fmt r c s rem deg.
+Proof. intros. split; reflexivity. Qed.
+Print Assumptions C10_keypoint_processor_wiring.
+
+Theorem C10_bbox_processor_wiring : forall fmt data r c s,
+  BboxProcessor_convert_to_dicaugment fmt data r c s = convert_bboxes_to_dicaugment data fmt r c s true /\
+  BboxProcessor_convert_from_dicaugment fmt data r c s = convert_bboxes_from_dicaugment data fmt r c s true.
+Proof. intros. split; reflexivity. Qed.
+Print Assumptions C10_bbox_processor_wiring.
